@@ -60,7 +60,7 @@ def main():
        "level_claimed": {"category": c[1], "text": c[2], "design_ref": "DESIGN.md " + c[3]},
        "level_note": c[4], "technique": c[5]} for c in claimed],
      "not_applicable": [{"property_id": a, "reason": b} for a, b in sorted(na)],
-     "notes": "see DESIGN.md; known_findings.json lists repaired defects (fixed entries suppress nothing)",
+     "notes": "see DESIGN.md; known_findings.json lists repaired defects (fixed entries suppress nothing) and three open findings, each listed by the failing inputs: fun2core variable capture (C02, C01), main called like a definition (C02, C01), table-label concatenation (C14)",
     }
     with open(os.path.join(ROOT, 'MANIFEST.json'), 'w') as f:
         json.dump(m, f, indent=1)
